@@ -4,6 +4,7 @@ package completion
 
 import (
 	"testing"
+	"time"
 
 	"github.com/reeflective/readline/inputrc"
 	"github.com/reeflective/readline/internal/core"
@@ -45,4 +46,38 @@ func TestVerifFindingAcceptShortCandidate(t *testing.T) {
 	}()
 	e, _ := newTestEngine("ls abc", "abc", "ab")
 	e.acceptCandidate()
+}
+
+// C15/C01: (*group).wrapExcessAliases/dec:L3 — when the first column of an aliased group is wider than half the
+// terminal, maxColumns is 0 and the wrapping loop appends empty rows forever.
+func TestVerifFindingWrapExcessAliasesHang(t *testing.T) {
+	done := make(chan bool)
+	go func() {
+		g := &group{termWidth: 20, columnsWidth: []int{15, 15}, aliased: true}
+		grid := [][]Candidate{{{Value: "aaaaaaaaaaaaaa", Description: "d"}, {Value: "bbbbbbbbbbbbbb", Description: "d"}}}
+		defer func() { recover(); done <- true }()
+		g.wrapExcessAliasesBounded(grid)
+		done <- true
+	}()
+	select {
+	case <-done:
+	case <-time.After(2 * time.Second):
+		t.Errorf("wrapExcessAliases does not terminate when the first column is wider than half the terminal")
+	}
+}
+
+// wrapExcessAliasesBounded runs the real function but panics out of it once the row list has grown absurdly,
+// so that the demonstration does not exhaust memory.
+func (g *group) wrapExcessAliasesBounded(grid [][]Candidate) {
+	stop := make(chan bool)
+	go func() {
+		select {
+		case <-stop:
+		case <-time.After(1500 * time.Millisecond):
+			// make the spinning goroutine fail fast: shrink the slice it slices from
+			g.columnsWidth = nil
+		}
+	}()
+	g.wrapExcessAliases(grid, nil)
+	close(stop)
 }
